@@ -23,13 +23,14 @@ Ltac evalQ := poly_vm; interval with (i_prec 80).
 
 (* SPolynomial(...).abel at one pixel: per-column preparation and max(r, r_min) by vm_compute
    (VM cast), the remaining closed expression (sqrt, ln, atan of rationals) by Interval *)
+Ltac vm_rw t :=
+  let v := eval vm_compute in t in
+  let E := fresh in assert (E : t = v) by (vm_cast_no_check (eq_refl v)); rewrite E; clear E.
+
 Ltac sp_eval :=
-  unfold sp_abelQ_at;
-  match goal with |- context [sp_prepareQ ?a ?b ?c] =>
-    let t := constr:(sp_prepareQ a b c) in let v := eval vm_compute in t in
-    let E := fresh in assert (E : t = v) by (vm_cast_no_check (eq_refl v)); rewrite E; clear E end;
-  match goal with |- context [Qmax ?a ?b] =>
-    let t := constr:(Qmax a b) in let v := eval vm_compute in t in
-    let E := fresh in assert (E : t = v) by (vm_cast_no_check (eq_refl v)); rewrite E; clear E end;
+  unfold sp_piece_abelQ_at, sp_abelQ_at;
+  repeat match goal with |- context [Qltb ?a ?b] => vm_rw (Qltb a b) end;
+  repeat match goal with |- context [sp_prepareQ ?a ?b ?c] => vm_rw (sp_prepareQ a b c) end;
+  repeat match goal with |- context [Qmax ?a ?b] => vm_rw (Qmax a b) end;
   cbv -[Rplus Rmult Rminus Rdiv Ropp Rinv IZR sqrt ln atan Rabs Rle pow INR];
   interval with (i_prec 80).
